@@ -860,9 +860,13 @@ where
         // with a new entry of the same key, after the op was created. Such an entry
         // must not be admitted (its Remove op has been or will be applied), and a
         // rejection must not remove the newer entry from the hash map.
-        if !self.is_current_entry(&kh.key, &entry) {
-            return;
-        }
+        // Also switch to the key object that the hash map holds. When two threads insert
+        // the same key at the same time, this op can carry another (equal) key object than
+        // the map, and the deque nodes would keep that second copy of the key alive.
+        let kh = match self.current_key(&kh.key, &entry) {
+            Some(key) => KeyHash::new(key, kh.hash),
+            None => return,
+        };
 
         // The entry may have been updated again since this op was created. Decide
         // with its current weight, which is what will be accounted for it.
@@ -934,14 +938,14 @@ where
         }
     }
 
-    /// Returns `true` if the hash map holds `entry` or an updated version of it
-    /// (an update shares the `EntryInfo` with the entry it has replaced).
+    /// Returns the key held by the hash map if the map holds `entry` or an updated
+    /// version of it (an update shares the `EntryInfo` with the entry it has replaced).
     #[inline]
-    fn is_current_entry(&self, key: &Arc<K>, entry: &TrioArc<ValueEntry<K, V>>) -> bool {
+    fn current_key(&self, key: &Arc<K>, entry: &TrioArc<ValueEntry<K, V>>) -> Option<Arc<K>> {
         self.cache
             .get(key)
-            .map(|e| TrioArc::ptr_eq(e.entry_info(), entry.entry_info()))
-            .unwrap_or(false)
+            .filter(|e| TrioArc::ptr_eq(e.entry_info(), entry.entry_info()))
+            .map(|e| Arc::clone(e.key()))
     }
 
     #[inline]
